@@ -7,9 +7,9 @@ import QuinnModel.Util
 namespace QM.Drv
 open QM
 
-def b01 (b : Bool) : String := if b then "1" else "0"
+def connB01 (b : Bool) : String := if b then "1" else "0"
 
-def natList (ws : List String) : Option (List Nat) := ws.mapM String.toNat?
+def connNatList (ws : List String) : Option (List Nat) := ws.mapM String.toNat?
 
 def amp : List String → String
   | ["rx", len, mig, vb, sb, rb] =>
@@ -29,22 +29,22 @@ def amp : List String → String
       s!"{v} {p'.sent} {p'.recvd}"
     | _, _, _, _ => "bad-op"
   | "tx" :: seg :: vb :: sb :: rb :: n :: sizes =>
-    match seg.toNat?, vb.toNat?, sb.toNat?, rb.toNat?, n.toNat?, natList sizes with
+    match seg.toNat?, vb.toNat?, sb.toNat?, rb.toNat?, n.toNat?, connNatList sizes with
     | some seg, some vb, some sb, some rb, some n, some sizes =>
       if sizes.length ≠ n then "bad-op" else
       let p : Amp.Path := ⟨vb == 1, sb, rb⟩
       let em := Amp.emit p seg 0 sizes
       let p' := Amp.step p (.poll seg sizes)
-      s!"{b01 p'.validated} {p'.sent} {p'.recvd} {em.length}"
+      s!"{connB01 p'.validated} {p'.sent} {p'.recvd} {em.length}"
     | _, _, _, _, _, _ => "bad-op"
   | _ => "bad-op"
 
-def optNat (s : String) : Option (Option Nat) :=
+def connOptNat (s : String) : Option (Option Nat) :=
   if s == "-" then some none else (s.toNat?).map some
 
-def lifeParse : List String → Option Life.L
+def connLifeParse : List String → Option Life.L
   | [st, err, cf, ct, it] =>
-    match st.toNat?, err.toNat?, cf.toNat?, optNat ct, optNat it with
+    match st.toNat?, err.toNat?, cf.toNat?, connOptNat ct, connOptNat it with
     | some st, some err, some cf, some ct, some it =>
       let st := match st with
         | 0 => Life.St.handshake | 1 => Life.St.established | 2 => Life.St.closed
@@ -53,50 +53,50 @@ def lifeParse : List String → Option Life.L
     | _, _, _, _, _ => none
   | _ => none
 
-def lifeShow (l : Life.L) : String :=
+def connLifeShow (l : Life.L) : String :=
   let st := match l.st with
     | .handshake => 0 | .established => 1 | .closed => 2 | .draining => 3 | .drained => 4
   let o := fun (x : Option Nat) => match x with | some n => toString n | none => "-"
-  s!"{st} {b01 l.error} {b01 l.closeFlag} {o l.closeTimer} {o l.idleTimer}"
+  s!"{st} {connB01 l.error} {connB01 l.closeFlag} {o l.closeTimer} {o l.idleTimer}"
 
 /-- `life <event …> <before-state>` prints the after-state predicted by `Life.step` -/
 def life : List String → String
   | "close" :: now :: pto3 :: st =>
-    match now.toNat?, pto3.toNat?, lifeParse st with
-    | some now, some pto3, some l => lifeShow (Life.step l (.close now pto3))
+    match now.toNat?, pto3.toNat?, connLifeParse st with
+    | some now, some pto3, some l => connLifeShow (Life.step l (.close now pto3))
     | _, _, _ => "bad-op"
   | "timeout" :: now :: st =>
-    match now.toNat?, lifeParse st with
-    | some now, some l => lifeShow (Life.step l (.timeout now))
+    match now.toNat?, connLifeParse st with
+    | some now, some l => connLifeShow (Life.step l (.timeout now))
     | _, _ => "bad-op"
   | "peerclose" :: now :: pto3 :: st =>
-    match now.toNat?, pto3.toNat?, lifeParse st with
-    | some now, some pto3, some l => lifeShow (Life.step l (.peerClose now pto3))
+    match now.toNat?, pto3.toNat?, connLifeParse st with
+    | some now, some pto3, some l => connLifeShow (Life.step l (.peerClose now pto3))
     | _, _, _ => "bad-op"
   | "peercloseearly" :: now :: pto3 :: st =>
-    match now.toNat?, pto3.toNat?, lifeParse st with
-    | some now, some pto3, some l => lifeShow (Life.step l (.peerCloseEarly now pto3))
+    match now.toNat?, pto3.toNat?, connLifeParse st with
+    | some now, some pto3, some l => connLifeShow (Life.step l (.peerCloseEarly now pto3))
     | _, _, _ => "bad-op"
   | "pkterr" :: kind :: now :: pto3 :: same :: st =>
-    match now.toNat?, pto3.toNat?, same.toNat?, lifeParse st with
+    match now.toNat?, pto3.toNat?, same.toNat?, connLifeParse st with
     | some now, some pto3, some same, some l =>
       let k := if kind == "drained" then Life.PktErr.toDrained else if kind == "closed" then Life.PktErr.toClosed else Life.PktErr.toDraining
-      lifeShow (Life.step l (.pktErr k now pto3 (same == 1)))
+      connLifeShow (Life.step l (.pktErr k now pto3 (same == 1)))
     | _, _, _, _ => "bad-op"
   | "closeframe" :: st =>
-    match lifeParse st with
-    | some l => lifeShow (Life.step l .closeFrameWhileClosed)
+    match connLifeParse st with
+    | some l => connLifeShow (Life.step l .closeFrameWhileClosed)
     | none => "bad-op"
   | "authed" :: now :: idle :: st =>
-    match now.toNat?, idle.toNat?, lifeParse st with
-    | some now, some idle, some l => lifeShow (Life.step l (.authed now idle))
+    match now.toNat?, idle.toNat?, connLifeParse st with
+    | some now, some idle, some l => connLifeShow (Life.step l (.authed now idle))
     | _, _, _ => "bad-op"
   | _ => "bad-op"
 
 /-- `timers next <now> <t0> … <t8>` prints `next_timeout` and the indices that are expired at `now` -/
 def timers : List String → String
   | "next" :: now :: tbl =>
-    match now.toNat?, tbl.mapM optNat with
+    match now.toNat?, tbl.mapM connOptNat with
     | some now, some t =>
       if t.length ≠ Gen.timerCount then "bad-op" else
       let o := fun (x : Option Nat) => match x with | some n => toString n | none => "-"
